@@ -8,23 +8,23 @@ Import ListNotations.
 
 (* the type a field is about: the annotation seen through one Optional / container / Type[...] wrapper *)
 Definition seen_through (t : ty) : ty :=
-  match t with Optional a | OptionalL a | Cont _ a | TypeOf a => a | _ => t end.
+  match t with Optional a | OptionalL a | Pep604 a | Cont _ a | TypeOf a => a | _ => t end.
 
 Definition is_builtin_ty (t : ty) : bool := match t with Builtin _ => true | _ => false end.
 Definition is_relation_ty (t : ty) : bool := match t with Cls _ | Enum _ => true | _ => false end.
 
 (* builtin: it is about int/float/str/bool/datetime *)
 Definition s_builtin (t : ty) : bool := is_builtin_ty (seen_through t).
-(* optional: written Optional[...] (Union[T, None]; Union[None, T] is the same type) *)
-Definition s_optional (t : ty) : bool := match t with Optional _ | OptionalL _ => true | _ => false end.
+(* optional: written Optional[...] (Union[T, None]; Union[None, T] and the PEP 604 spelling T | None are the same type) *)
+Definition s_optional (t : ty) : bool := match t with Optional _ | OptionalL _ | Pep604 _ => true | _ => false end.
 (* enum: a single (possibly absent) member of an enumeration *)
 Definition s_enum (t : ty) : bool :=
-  match t with Enum _ | Optional (Enum _) | OptionalL (Enum _) => true | _ => false end.
+  match t with Enum _ | Optional (Enum _) | OptionalL (Enum _) | Pep604 (Enum _) => true | _ => false end.
 (* container: written with one of the documented container types list/set/tuple/Sequence/type *)
 Definition s_container (t : ty) : bool := match t with Cont _ _ | TypeOf _ => true | _ => false end.
 (* one-to-one: a single (possibly absent) instance of a non-builtin type *)
 Definition s_one_to_one (t : ty) : bool :=
-  match t with Cls _ | Enum _ => true | Optional a | OptionalL a => is_relation_ty a | _ => false end.
+  match t with Cls _ | Enum _ => true | Optional a | OptionalL a | Pep604 a => is_relation_ty a | _ => false end.
 (* one-to-many: a container of a non-builtin type *)
 Definition s_one_to_many (t : ty) : bool :=
   match t with Cont _ a | TypeOf a => is_relation_ty a | _ => false end.
